@@ -3621,6 +3621,18 @@ func (_startVariadic) exec(vm *vm) {
 	vm.pc++
 }
 
+type _startVariadicCallee struct{}
+
+// startVariadicCallee inserts the variadic marker below the (this, callee) pair on top of the stack.
+var startVariadicCallee _startVariadicCallee
+
+func (_startVariadicCallee) exec(vm *vm) {
+	vm.push(vm.stack[vm.sp-1])
+	vm.stack[vm.sp-2] = vm.stack[vm.sp-3]
+	vm.stack[vm.sp-3] = variadicMarker
+	vm.pc++
+}
+
 type _callVariadic struct{}
 
 var callVariadic _callVariadic
